@@ -629,3 +629,11 @@ mod tests {
     assert_eq!("P3DT5H18M36S", duration.abs().to_string());
   }
 }
+
+#[cfg(dmntk_verif)]
+impl FeelDaysAndTimeDuration {
+  /// Verification hook: the total number of nanoseconds in this duration.
+  pub fn verif_nanos(&self) -> i128 {
+    self.0
+  }
+}
